@@ -31,10 +31,23 @@ static volatile const char* g_cur_case = "";   // for the fault handler
 static const long long BADV = 1999999999LL;
 static const long long LIM  = 1000000000LL;     // |v| < LIM is loggable (TLC ints are 32 bit)
 
+static int g_closed = 0;
+// a process that ends without close_ok() (exit() reached through corrupted control flow, e.g. after undefined behaviour in the
+// library call of the current case) leaves a Fault event for that case instead of a truncated trace
+inline void abnormal_exit() {
+    if (g_closed || !g_out) return;
+    fflush(g_out);
+    char b[256];
+    int n = snprintf(b, sizeof b, "{\"e\":\"Fault\",\"cfg\":\"%s\",\"sig\":-2,\"case\":\"%s\"}\n", g_cfg, (const char*)g_cur_case);
+    if (n > 0) { ssize_t r = write(g_fd, b, (size_t)n); (void)r; }
+    _exit(0);
+}
 inline void open(int argc, char** argv, const char* cfg) {
+    if (g_out) abnormal_exit();          // second call: control flow is corrupt
     const char* p = argc > 1 ? argv[1] : "/dev/stdout";
     g_out = std::fopen(p, "w");
     if (!g_out) { std::perror("vt::open"); std::exit(3); }
+    std::atexit(abnormal_exit);
     g_fd = fileno(g_out);
     g_cfg = cfg;
     static char buf[1 << 20];
@@ -42,6 +55,7 @@ inline void open(int argc, char** argv, const char* cfg) {
 }
 inline void close_ok() {
     std::fprintf(g_out, "{\"e\":\"End\",\"cfg\":\"%s\"}\n", g_cfg);
+    g_closed = 1;
     std::fclose(g_out);
 }
 
